@@ -109,7 +109,7 @@ func (m *material) key(o *proxyv1alpha1.UpstreamCluster) string {
 
 // goodHosts are syntactically valid authorities of closed local ports (nothing listens on ports 1..9 of the loopback
 // interface in the sandbox), so that background health checks fail fast and never leave the machine.
-var goodHosts = []string{"127.0.0.1:1", "127.0.0.1:2", "127.0.0.1:3", "[::1]:4", "127.0.0.1:5", "localhost:6", "127.0.0.1"}
+var goodHosts = []string{"[::ffff:127.0.0.1]:7", "127.0.0.1:1", "127.0.0.1:2", "127.0.0.1:3", "[::1]:4", "127.0.0.1:5", "localhost:6", "127.0.0.1"}
 
 var goodSuffix = []string{"", "", "", "", "/", "/base", "/base/?x=1", "?x=%zz", "#frag", "/a b"}
 
@@ -250,7 +250,53 @@ func genWildSchema(g *vkit.Rand, name string) proxyv1alpha1.FlowControlSchema {
 
 // ---- names ----
 
-var goodNames = []string{"c16", "a.example", "cluster-1.prod", "x", "0", "a-b.c-d.e"}
+var label63 = strings.Repeat("a", 63)
+
+// goodNames: valid DNS subdomains incl. the boundaries (1 character, a 63-character label, 253 characters in total)
+var goodNames = []string{"c16", "a.example", "cluster-1.prod", "x", "0", "a-b.c-d.e", label63, label63 + "." + label63 + "." + label63 + "." + strings.Repeat("b", 61), "xn--bcher-kva.example", "1.2.3.4"}
+
+// oddStrings: legal free-form strings at the boundaries: separators that other code uses (':' '/' '%' ',' '='), upper
+// case and case variants, non-ASCII, empty, very long, IPv6 literals
+var oddStrings = []string{"a:b", "a/b", "%41%zz", "UPPER.Example", "upper.example", "ünï-☃", "", strings.Repeat("l", 300), "[::1]", "::1", "a,b=c", " lead", "trail ", "system:serviceaccount:ns:sa"}
+
+func hasBoundaryStrings(o *proxyv1alpha1.UpstreamCluster) bool {
+	odd := func(s string) bool {
+		if len(s) >= 63 {
+			return true
+		}
+		for _, x := range oddStrings {
+			if x != "" && s == x {
+				return true
+			}
+		}
+		return false
+	}
+	if odd(o.Name) || odd(o.Spec.ClientConfig.ServerName) {
+		return true
+	}
+	for _, s := range o.Spec.SecureServing.ServerNames {
+		if odd(s) {
+			return true
+		}
+	}
+	for _, s := range o.Spec.FlowControl.Schemas {
+		if odd(s.Name) {
+			return true
+		}
+	}
+	for _, p := range o.Spec.DispatchPolicies {
+		for _, ru := range p.Rules {
+			for _, l := range [][]string{ru.Verbs, ru.APIGroups, ru.Resources, ru.ResourceNames, ru.Users, ru.UserGroups, ru.NonResourceURLs} {
+				for _, s := range l {
+					if odd(s) {
+						return true
+					}
+				}
+			}
+		}
+	}
+	return false
+}
 var badNames = []string{"", "UPPER", "a_b", "-a", "a-", "a..b", ".a", "a b", "a/b", "ü", "a\x00"}
 
 func genName(g *vkit.Rand, bad bool) string {
@@ -276,6 +322,21 @@ func genRule(g *vkit.Rand) proxyv1alpha1.DispatchPolicyRule {
 			out = append(out, g.Pick(vals))
 		}
 		return out
+	}
+	if g.Chance(0.3) { // boundary strings, duplicates
+		odd := func() []string {
+			n := g.Range(1, 3)
+			var out []string
+			for i := 0; i < n; i++ {
+				out = append(out, g.Pick(oddStrings))
+			}
+			if g.Chance(0.3) {
+				out = append(out, out[0])
+			}
+			return out
+		}
+		return proxyv1alpha1.DispatchPolicyRule{Verbs: []string{"*"}, APIGroups: odd(), Resources: odd(), ResourceNames: odd(), Users: odd(), UserGroups: odd(), NonResourceURLs: odd(),
+			ServiceAccounts: []proxyv1alpha1.ServiceAccountRef{{Namespace: g.Pick(oddStrings), Name: g.Pick(oddStrings)}}}
 	}
 	ru := proxyv1alpha1.DispatchPolicyRule{
 		Verbs:           pick([]string{"get", "*", "-list", "", "-"}),
@@ -346,7 +407,7 @@ func genValid(g *vkit.Rand, m *material) *proxyv1alpha1.UpstreamCluster {
 		cc.QPSDivisor = g.PickI32([]int32{0, 1, 2, 1000, math.MaxInt32})
 	}
 	if g.Chance(0.2) {
-		cc.ServerName = g.Pick([]string{"kubernetes.default", "a b", ""})
+		cc.ServerName = g.Pick(append([]string{"kubernetes.default", "a b"}, oddStrings...))
 	}
 	ss := &o.Spec.SecureServing
 	switch g.Intn(6) {
@@ -360,12 +421,17 @@ func genValid(g *vkit.Rand, m *material) *proxyv1alpha1.UpstreamCluster {
 	if g.Chance(0.3) {
 		n := g.Range(1, 2)
 		for i := 0; i < n; i++ {
-			ss.ServerNames = append(ss.ServerNames, g.Pick([]string{"alias.example", "Alias.Example", "other", "taken.example", "x y", "", o.Name}))
+			ss.ServerNames = append(ss.ServerNames, g.Pick(append([]string{"alias.example", "Alias.Example", "other", "OTHER", "taken.example", "x y", o.Name, strings.ToUpper(o.Name)}, oddStrings...)))
 		}
 	}
 	nsch := g.Intn(4)
 	for i := 0; i < nsch; i++ {
 		o.Spec.FlowControl.Schemas = append(o.Spec.FlowControl.Schemas, genValidSchema(g, fmt.Sprintf("s%d", i)))
+	}
+	// a schema may carry a boundary name (the policies refer to it by that name; names differing only in case are distinct)
+	schemaName := func(i int) string { return o.Spec.FlowControl.Schemas[i].Name }
+	if nsch > 0 && g.Chance(0.2) {
+		o.Spec.FlowControl.Schemas[g.Intn(nsch)].Name = g.Pick([]string{"S0", "s0 ", "ünï-☃", strings.Repeat("s", 300), "a:b/c%20d", "system-default", "a,b=c"})
 	}
 	np := g.Range(1, 3)
 	for i := 0; i < np; i++ {
@@ -380,7 +446,7 @@ func genValid(g *vkit.Rand, m *material) *proxyv1alpha1.UpstreamCluster {
 			}
 		}
 		if nsch > 0 && g.Chance(0.6) {
-			p.FlowControlSchemaName = fmt.Sprintf("s%d", g.Intn(nsch))
+			p.FlowControlSchemaName = schemaName(g.Intn(nsch))
 		}
 		nr := g.Range(1, 2)
 		for k := 0; k < nr; k++ {
